@@ -25,9 +25,9 @@ func (c *Challenger) ObserveElements(es []F) {
 	}
 }
 
-func (c *Challenger) ObserveHash(h HashOut)         { c.ObserveElements(h[:]) }
-func (c *Challenger) ObserveBNHash(h fr.Element)    { c.ObserveElements(BNToVec(h)) }
-func (c *Challenger) ObserveExt(e E)                { c.ObserveElements(e[:]) }
+func (c *Challenger) ObserveHash(h HashOut)      { c.ObserveElements(h[:]) }
+func (c *Challenger) ObserveBNHash(h fr.Element) { c.ObserveElements(BNToVec(h)) }
+func (c *Challenger) ObserveExt(e E)             { c.ObserveElements(e[:]) }
 func (c *Challenger) ObserveCap(cap []fr.Element) {
 	for _, h := range cap {
 		c.ObserveBNHash(h)
